@@ -1,4 +1,4 @@
-(* C14, text level: the JSON slicer behind `biom subset-table` (biom/parse.py:57-269, as of a7665d73, and
+(* C14, text level: the JSON slicer behind `biom subset-table` (biom/parse.py:57-273, as of 6327e066, and
    biom/cli/table_subsetter.py:84-136) as functions over lists of code points, followed by the
    reference printers / parsers the theorems are stated with.
 
@@ -92,7 +92,7 @@ Definition py_int (s : text) : option Z :=
   | d => option_map Z.of_nat (parse_nat d)
   end.
 
-(* ------------------------------------------------------------------ direct_parse_key (parse.py:57-109) *)
+(* ------------------------------------------------------------------ direct_parse_key (parse.py:57-115) *)
 Definition key_pat (key : text) : text := QUOTE :: key ++ [QUOTE; COLON].      (* '"%s":' % key *)
 
 (* 70-71: count the whitespace, None = ran off the end (IndexError) *)
@@ -123,7 +123,10 @@ Fixpoint scan_num (s : text) (n : nat) : option nat :=
 Definition is_open (c : Z) : bool := (c =? LBRACK) || (c =? LBRACE).
 Definition is_close (c : Z) : bool := (c =? RBRACK) || (c =? RBRACE).
 
-(* 87-107: quotes are stack tokens like brackets, a closing bracket pops whatever is on top *)
+(* 87-113 (as of 6327e066): a stack of open brackets and, on top while inside a string, the
+   opening quote.  Inside a string only two things count: a backslash skips the next character,
+   an unescaped quote closes the string; brackets and braces are text.  Outside strings a quote
+   pushes, a closing bracket pops whatever is on top, an opening bracket pushes. *)
 Fixpoint scan_obj (s : text) (stack : list Z) (n : nat) {struct s} : option nat :=
   match stack with
   | [] => Some n
@@ -131,7 +134,11 @@ Fixpoint scan_obj (s : text) (stack : list Z) (n : nat) {struct s} : option nat 
     match s with
     | [] => None
     | c :: t =>
-      if c =? QUOTE then (if top =? QUOTE then scan_obj t below (S n) else scan_obj t (c :: stack) (S n))
+      if top =? QUOTE then
+        (if c =? BSL then match t with [] => None | _ :: t' => scan_obj t' stack (S (S n)) end
+         else if c =? QUOTE then scan_obj t below (S n)
+         else scan_obj t stack (S n))
+      else if c =? QUOTE then scan_obj t (c :: stack) (S n)
       else if is_close c then scan_obj t below (S n)
       else if is_open c then scan_obj t (c :: stack) (S n)
       else scan_obj t stack (S n)
@@ -162,7 +169,7 @@ Definition direct_parse_key (s key : text) : result text :=
     end
   end.
 
-(* ------------------------------------------------------------------ the sparse slicers (parse.py:174-230) *)
+(* ------------------------------------------------------------------ the sparse slicers (parse.py:178-234) *)
 Definition strip_set (c : Z) : bool := (c =? LBRACK) || (c =? RBRACK) || (c =? SP) || (c =? NL) || (c =? TAB).
 Definition strip_f (x : text) : text := strip strip_set x.
 
@@ -255,7 +262,7 @@ Definition slice_obs (data : text) (to_keep : list nat) : result text :=
 Definition slice_samp (data : text) (to_keep : list nat) : result text :=
   rbind (samp_rows (split2 RBRACK COMMA data) (remap_lookup to_keep)) (fun rows => ROk (out_rows rows)).
 
-(* ------------------------------------------------------------------ direct_slice_data (parse.py:112-171) *)
+(* ------------------------------------------------------------------ direct_slice_data (parse.py:116-175) *)
 Definition K_SHAPE : text := Eval compute in codes_of_string "shape".
 Definition K_DATA : text := Eval compute in codes_of_string "data".
 Definition K_MATRIX_TYPE : text := Eval compute in codes_of_string "matrix_type".
@@ -519,7 +526,7 @@ Fixpoint dumps (v : jv) : text :=
               ++ [RBRACE]
   end.
 
-(* ------------------------------------------------------------------ get_axis_indices (parse.py:233-269) *)
+(* ------------------------------------------------------------------ get_axis_indices (parse.py:237-273) *)
 Definition K_ROWS : text := Eval compute in codes_of_string "rows".
 Definition K_COLUMNS : text := Eval compute in codes_of_string "columns".
 Definition K_ID : text := Eval compute in codes_of_string "id".
